@@ -45,8 +45,8 @@ LEVEL_NOTE = ("Trusted: Coq kernel, extraction, translator harness/translate/c10
               "Return-annotation and non-parameter breakages are outside this property. The three non-kind rules (required, moved, default guard) "
               "are modelled by hand (their `if` tests are shape-checked by the translator, not translated). Defaults of inspected (non-visited) "
               "objects are plain strings and are not generated. The correspondence uses calls with at most 5 positionals (theorems: unbounded).")
-MODEL = ("Model.C10_hist", "run_C10")
-COQ_TARGETS = ["Proofs/C10_diff.vo", "Proofs/C10_complete.vo", "Proofs/C10_sound.vo", "Proofs/C10_rule.vo", "Proofs/C10_defaults.vo", "Proofs/C10_hist.vo"]
+MODEL = ("Model.C10_code", "run_C10")
+COQ_TARGETS = ["Proofs/C10_diff.vo", "Proofs/C10_complete.vo", "Proofs/C10_sound.vo", "Proofs/C10_rule.vo", "Proofs/C10_defaults.vo", "Proofs/C10_hist.vo", "Proofs/C10_code.vo", "Proofs/C10_exact.vo"]
 RULE = ("exhaustive well-formed signatures over names {a,b,c}, 5 kinds, default in {none,1,2}, <=2 parameters (436 signatures; quick: all identical "
         "pairs + all pairs of a seeded 150-subset; thorough: all ordered pairs) x call shapes (0..5 positionals x keyword subsets of {a,b,c,y,z} "
         "up to size 3, plus repeated keywords); seeded random/mutated pairs of <=5-parameter signatures; pairs whose defaults come from an "
@@ -808,6 +808,16 @@ def check_pairs(ctx, cache, pairs, stream, notes=None, where="module", env=None)
         fo, fn = cache.pyf(o), cache.pyf(n)
         for b, exc, wit in just:
             ctx.observe("justification", b[0] + ("/excused" if exc else "/witness"))
+            if exc and b[0] in ("required", "added") and b[1] < len(ALL):
+                # exactness (C10_required_excuse_exact): no call that old binds leaves the excused parameter unfilled in new
+                for cn, ckw in cache.bindset(o):
+                    try:
+                        do_call(fn, cn, ckw)
+                    except TypeError as e:
+                        if "missing" in str(e) and f"'{ALL[b[1]]}'" in str(e):
+                            ctx.tie_failure("oracle", "an excused required/added parameter is left unfilled by a call old binds",
+                                            {"breakage": b, "call": fmt_call((cn, ckw)), "error": str(e)}, case)
+                ctx.count("excuse_exactness_cases")
             if exc:
                 continue
             if not wit:
